@@ -29,6 +29,7 @@ RULE = (
     "all-0 / all-1 / mixed; 1..6 consecutive learn steps; optionally directly after clone / a mutation kind / checkpoint "
     "load; seed). Every learn step is one evaluation of the three monitors. Non-trivial = mixed done pattern (masking "
     "metamorphic test ran) AND at least one soft update was due AND >= 10 target leaves compared; distinct = distinct cases"
+    " Added: every third case hands ONE experiences object to all its learn steps (importance weights of a re-used prioritised batch stay those of its first use); every second multi-agent case rolls the done vector per agent (the masking twin then scrambles only rows in which every agent is done)"
 )
 ASSUMPTIONS = [
     "DDPG/TD3 reference loss is evaluated with policy_noise=0 (the noise is an input of learn()); the masking twin runs "
